@@ -94,7 +94,7 @@ def run(ctx):
         seeds = [ctx.seed] if q else [ctx.seed, ctx.seed + 1000, ctx.seed + 2000]
         for s in seeds:
             t = os.path.join(ctx.work, "opts-%d.ndjson" % s)
-            lib.run_driver(exe, ["opts", t, scratch, 300 if q else 2000], env={"VERIF_SEED": str(s)}, timeout=900, allow_fail=True)
+            lib.run_driver(exe, ["opts", t, scratch, 300 if q else 1200], env={"VERIF_SEED": str(s)}, timeout=900, allow_fail=True)
             seam.append(t)
         t = os.path.join(ctx.work, "orders.ndjson")
         lib.run_driver(exe, ["orders", t, scratch, 4 if q else 6], env={"VERIF_SEED": str(ctx.seed)}, timeout=900, allow_fail=True)
@@ -104,7 +104,7 @@ def run(ctx):
         seam.append(t)
         fams.append(("seam", "Trace_PoissonLL", seam, 4000 if q else 12000))
         t = os.path.join(ctx.work, "real.ndjson")
-        lib.run_driver(exe_real, ["real", t, scratch, 12 if q else 96], env={"VERIF_SEED": str(ctx.seed)}, timeout=900, allow_fail=True)
+        lib.run_driver(exe_real, ["real", t, scratch, 16 if q else 64], env={"VERIF_SEED": str(ctx.seed)}, timeout=900, allow_fail=True)
         fams.append(("real", "Trace_PoissonLLReal", [t], 60 if q else 150))
         t = os.path.join(ctx.work, "listmode.ndjson")
         lib.run_driver(exe_lm, ["lm", t, scratch, 40 if q else 400], env={"VERIF_SEED": str(ctx.seed)}, timeout=900, allow_fail=True)
